@@ -119,6 +119,7 @@ def run_threaded(case):
                 read(st, GETTERS)
                 st.confidence_interval(0.05)
 
+    init_worker()          # (idempotent; the shrinker evaluates in forks of the parent)
     det, errors = twothread.run_two(case["sched"], writer, reader)
     info["switches"] = det.n_switch
     info["schedule"] = [det.ydigest, det.step, [list(d) for d in det.decisions]]
